@@ -35,7 +35,7 @@ from common import blit, bytes_lit, llit, olit, zlit, VERIF
 ID = 'C20'
 TECHNIQUE = ('Coq proof over all histories of requests / rewrites / conditional headers on the Gallina model of '
              'Response.cache_headers / make_conditional / parse_httpdate and the TMS/WMTS/KML/WMS-C glue + correspondence '
-             'check against real Response objects and the real WSGI application')
+             'check against real Response objects and the real WSGI application; the 304 decision of make_conditional is regenerated from the source by the ast translator (Gen_cond.v) and proved equal to the model')
 LEVEL_TEXT = ('Theorems (validators_stable over arbitrary histories, etag_match_304_empty, sound_304, stale_validators_get_200, '
               'malformed_date_ignored, uncacheable_no_store for all four services) about the model Cond.v for every hash '
               'function, tick rate, max age, store content and header value; the model is tied to mapproxy/response.py, '
